@@ -115,7 +115,7 @@ def check_reflection(H, w, pd, M, Rone, tag):
     lam = 1.0 if float(np.sum(img[-1] * pts[-1])) > 0 else -1.0
     wi = np.asarray((Rone @ H.Point(w.copy())).proj_data, dtype=float)
     e = float(np.max(np.abs(wi + lam * w)))
-    if not e <= 1e-9 * (1.0 + float(np.max(np.abs(w)))) * sc:
+    if not e <= 1e-9 * min(1.0 + float(np.max(np.abs(w))), 4.0 * float(np.max(np.abs(w)))) * sc:      # relative to |w| for small-scale normals
         v.append(_V("reflection/negates-normal", "%s: normal %s is sent to %s (the wall is scaled by %+d)" % (tag, _f(w), _f(wi), lam)))
     Mo = reflection_matrix(w)
     e = min(float(np.max(np.abs(M - Mo))), float(np.max(np.abs(M + Mo))))
@@ -191,7 +191,8 @@ def _case_reflection(case):
                 ok = light <= 1e-7 and orth <= 1e-7 and apart >= 1e-6
             if not ok and not v:
                 v.append(_V("from_reflection/geodesic", "Geodesic.from_reflection(reflection in %s) = %s is not the wall" % (_f(w), _f(e))))
-    o = "ok|%s|%d" % (layout, int(round(10 * float(hyp.mink(ws[0], ws[0])))))
+    o = "ok|%s|%d|%s" % (layout, int(round(10 * float(hyp.mink(ws[0], ws[0])) / float(case.get("scales", [1.0])[0]) ** 2)),
+                         ",".join("%g" % x for x in case.get("scales", [])))
     return {"v": v, "t": t, "o": o, "nt": True}
 
 
@@ -470,12 +471,30 @@ def generic_normals(n, count, seed):
     return out
 
 
+# a normal is a homogeneous vector: lambda w, lambda != 0, is the same hyperplane with the same reflection; spacelike-ness does
+# not depend on lambda (absolute thresholds on <w,w> do)
+NORMAL_SCALES = [3e-5, 1e-6, 1e4, -1.0, -3e-5, -1e-6, -1e4]
+SCALED_STRIDE = {2: 2, 3: 5, 4: 23}        # every k-th normal of the section's list is taken at every scale
+
+
+def scaled_normal(w, s):
+    return [float(s) * float(x) for x in w]
+
+
 def reflection_cases(n, values, ngen, seed):
     ws = lattice_normals(n, values) + generic_normals(n, ngen, seed)
     for w in ws:
         yield {"n": n, "layout": "single", "normals": [w]}
     for i in range(len(ws)):
         yield {"n": n, "layout": "composite", "normals": [ws[i], ws[(i + 1) % len(ws)]]}
+    L = len(NORMAL_SCALES)
+    for i in range(0, len(ws), SCALED_STRIDE[n]):
+        for j, s in enumerate(NORMAL_SCALES):
+            yield {"n": n, "layout": "single", "normals": [scaled_normal(ws[i], s)], "scales": [s]}
+            # composites mix scales: (s w_i, s' w_(i+1)) with s' the next scale of the list, and (w_(i+1), s w_i)
+            s2 = NORMAL_SCALES[(j + 1) % L]
+            yield {"n": n, "layout": "composite", "normals": [scaled_normal(ws[i], s), scaled_normal(ws[(i + 1) % len(ws)], s2)], "scales": [s, s2]}
+            yield {"n": n, "layout": "composite", "normals": [ws[(i + 1) % len(ws)], scaled_normal(ws[i], s)], "scales": [1.0, s]}
 
 
 def reflection_ideal_cases(q, seed):
@@ -861,7 +880,8 @@ def run(ctx):
     ctx.rule = ("engine E (histories): all op sequences of length <= %d, no merging; " % HIST_DEPTH +
                 "engine P: every spacelike lattice normal (and generic ones) x layout; every (lattice point, standard isometry) "
                 "conjugate; every generator of the listed Coxeter groups; a case is non-trivial unless the isometry is the identity")
-    ctx.assume("normals are spacelike with Minkowski norm > 0.2 (lattice coordinates are floats)")
+    ctx.assume("normals are spacelike: lambda * w with w of Minkowski norm > 0.2 (lattice coordinates are floats) and lambda = 1 or, for a sub-lattice, "
+               "lambda in %s (a normal is a homogeneous vector; being spacelike does not depend on its scale)" % NORMAL_SCALES)
     ctx.assume("composite normals use the layout (N, 1, n+1) that Hyperplane accepts; (N, n+1) is outside the property")
     ctx.assume("conjugating isometries are origin_to() of lattice points with |k| <= %s; translation multipliers in %s"
                % ("0.9" if q else "0.97", "{1.3, 2, 5, 0.5}" if q else "{1.3, 2, 5, 0.5, 1.5, 3, 0.25}"))
@@ -880,7 +900,9 @@ def run(ctx):
         cases = list(reflection_cases(n, values, 6 if q else 24, seed))
         ctx.product(name, "checks.c15:case_reflection", cases, chunk=32,
                     domains={"lattice": values, "spacelike normals": len(lattice_normals(n, values)), "generic normals": 6 if q else 24,
-                             "layouts": ["(n+1,)", "(2,1,n+1)"]})
+                             "layouts": ["(n+1,)", "(2,1,n+1)"],
+                             "scaled normals": "every %d-th normal of the list multiplied by each of %s (single; composites pairing two scales and a "
+                                               "scaled with an unscaled normal): same wall, same closed-form reflection" % (SCALED_STRIDE[n], NORMAL_SCALES)})
     if want("reflections-ideal-basis"):
         ctx.product("reflections-ideal-basis", "checks.c15:case_reflection_ideal", list(reflection_ideal_cases(q, seed)), chunk=32,
                     domains={"walls": "the same normals; the wall is handed over as n ideal points (oracle: Klein flat w.x = w0)",
